@@ -70,7 +70,7 @@ def run(ctx):
         good = mk(now - 100).encode()
         curs = [c for c, _ in rates]
         # every prefix of the representative file (sampled in the quick tier), asking for a currency near the cut and for the last one
-        cuts = range(len(good) + 1) if not quick else sorted(set(list(range(0, len(good) + 1, 3)) + [len(good), len(good) - 1] + [good.find(c.encode()) + k for c in curs for k in range(-2, 22)]))
+        cuts = range(len(good) + 1) if not quick else sorted(set(list(range(0, len(good) + 1, 3)) + list(range(0, 64)) + [len(good), len(good) - 1] + [good.find(c.encode()) + k for c in curs for k in range(-2, 22)]))
         for n in cuts:
             if 0 <= n <= len(good):
                 cur = curs[-1] if r.random() < 0.5 else r.choice(curs)
